@@ -213,7 +213,12 @@ AppJudge(transport, before, done, seg0, ctx, rpl, aux) ==
                                          ELSE {}
                  [] c.proto = "RPC_UDP" -> { << "C16", t >> : t \in RpcReplyShellFails(seg, 0, rpl, 0) }
                  [] c.proto = "RPC_TCP" -> IF transport = "tcp"
-                                           THEN { << "C16", t >> : t \in RpcReplyShellFails(s, 4, rpl, 4) }
+                                           THEN (* the XID is that of the first call only while that call is *)
+                                                (* still being received; which call a later answer belongs   *)
+                                                (* to is not for this relation to say                        *)
+                                                LET first == Len(before) = 0 \/ Len(before) < 44
+                                                             \/ (RpcCall(s, 4).ok /\ Len(before) < RpcCall(s, 4).hdrend)
+                                                IN { << "C16", t >> : t \in RpcReplyShellFailsX(s, 4, rpl, 4, first) }
                                            ELSE IF transport = "udp"
                                            THEN (* a record-marked call in a datagram: framed or not, the answer echoes the call's XID *)
                                                 IF RpcReplyShellFails(seg, 4, rpl, 4) = {} \/ RpcReplyShellFails(seg, 4, rpl, 0) = {}
